@@ -34,7 +34,7 @@ vars == <<s, calls, last>>
 Moves == {"a", "b", "x", "c", "m", "s"}
 Starts == {APos(0, 0, TRUE), APos(2, 1, FALSE)}
 
-Init == /\ s = E!NewEngine(E!B!NewBoard(APos(0, 0, TRUE), 0, 1))
+Init == /\ \E h \in {0, 1} : s = E!NewEngine(E!B!NewBoard(APos(0, 0, TRUE), 0, 1), 0, h)
         /\ calls = 0
         /\ last = [call |-> "new", err |-> FALSE]
 
@@ -46,10 +46,12 @@ CallResetBad == Tick /\ Do("reset", E!Reset(s, FALSE, s.bd))
 CallMove     == Tick /\ \E m \in Moves : Do("move", E!Move(s, TRUE, m))
 CallMoveBad  == Tick /\ Do("move", E!Move(s, FALSE, "none"))
 CallTakeBack == Tick /\ Do("takeback", E!TakeBack(s))
-CallAnalyze  == Tick /\ Do("analyze", E!Analyze(s))
+CallAnalyze  == Tick /\ \E req \in {-1, 0, 2} : Do("analyze", E!Analyze(s, req))
+CallSetDepth == Tick /\ \E d \in {0, 1} : d # s.depth /\ Do("setdepth", E!SetDepth(s, d))
+CallSetHash  == Tick /\ \E h \in {0, 1, 2} : h # s.hash /\ Do("sethash", E!SetHash(s, h))
 CallHalt     == Tick /\ Do("halt", E!Halt(s))
 
-Next == CallReset \/ CallResetBad \/ CallMove \/ CallMoveBad \/ CallTakeBack \/ CallAnalyze \/ CallHalt
+Next == CallReset \/ CallResetBad \/ CallMove \/ CallMoveBad \/ CallTakeBack \/ CallAnalyze \/ CallHalt \/ CallSetDepth \/ CallSetHash
 Spec == Init /\ [][Next]_vars
 
 SearchesCurrent == E!SearchesCurrent(s)
@@ -61,5 +63,9 @@ HaltIffHeld    == [][CallHalt => (last'.err = ~s.active)]_vars
 ErrorKeepsBoard == [][last'.err => s'.bd = s.bd]_vars
 \* only Analyze acquires a handle; Analyze and Halt never touch the board
 OnlyAnalyzeLaunches == [][(~s.active /\ s'.active) => last'.call = "analyze"]_vars
-SearchLeavesBoard == [][last'.call \in {"analyze", "halt"} => s'.bd = s.bd]_vars
+SearchLeavesBoard == [][last'.call \in {"analyze", "halt", "setdepth", "sethash"} => s'.bd = s.bd]_vars
+\* the table changes with a new game only, and never under a running search
+TableOnlyAtReset == [][s'.ttsize # s.ttsize => (last'.call = "reset" /\ ~s'.active)]_vars
+\* the limit of a search is fixed when it is launched
+LimitFixedAtLaunch == [][(s.active /\ s'.active) => s'.limit = s.limit]_vars
 =============================================================================
